@@ -172,6 +172,10 @@ def cl_variants(N, K):
         ('list-equal', [C + b': ' + v + b', ' + v]),
         ('list-differ', [C + b': ' + v + b',' + k]),
         ('list-differ-rev', [C + b': ' + k + b', ' + v]),
+        # a harmless duplicate in front of the conflicting value (a scan that stops at the first duplicate misses it)
+        ('list-dup-then-differ', [C + b': ' + v + b', ' + v + b', ' + k]),
+        ('field-then-list-dup-differ', [C + b': ' + v, C + b': ' + v + b', ' + k]),
+        ('list-differ-then-dup', [C + b': ' + v + b', ' + k + b', ' + v]),
         ('plus-sign', [C + b': +' + v]),
         ('leading-zero', [C + b': 0' + v]),
         ('ows-padded', [C + b': \t ' + v + b' \t ']),
